@@ -91,6 +91,37 @@ package task
 //@   site (*Group).Wait#1 ghost waitErr := result
 //@   ensures result == waitErr                                                                         [C03]
 
+// ---- C12: the listing options are the flags, and "list" is asked for when either of them is set ------------
+//@ func NewListOptions
+//@   pure
+//@   ensures result.ListOnlyTasksWithDescriptions == list && result.ListAllTasks == listAll                  [C12]
+//@ func (ListOptions).ShouldListTasks
+//@   pure
+//@   ensures result == (o.ListOnlyTasksWithDescriptions || o.ListAllTasks)                                   [C12]
+
+// ---- C13: an internal task named on the command line ------------------------------------------------------
+// Every requested call is looked up before anything runs; if one of them names an internal task the invocation
+// ends with the internal-task error (code 202) and no task is started, in sequence or in parallel.
+//@ ghost var anyInternal bool scratch
+//@ ghost var nVetted int scratch
+//@ func (*Executor).Run
+//@   entry tok == 0     -- API entry point: the goroutine that starts an invocation holds no concurrency slot
+//@   init anyInternal := false
+//@   init nVetted := 0
+//@   site (*Executor).GetTask#1 requires arg1 == calls[$i] && nVetted == $i                                 [C13]
+//@   site (*Executor).GetTask#1 ghost anyInternal := anyInternal || (result.1 == nil && result.0.Internal)
+//@   site (*Executor).GetTask#1 ghost nVetted := nVetted + 1
+//@   loop 1 invariant !anyInternal && nVetted == $i                                                         [C13]
+//@   loop 3 invariant tok == 0 && !anyInternal && nVetted == len(calls)                                     [C13]
+//@   site (*Executor).RunTask#0 requires !anyInternal && nVetted == len(calls)                              [C13]
+//@   site (*Group).Go#0 requires !anyInternal && nVetted == len(calls)                                      [C13]
+//@   site (*Executor).watchTasks#0 requires !anyInternal && nVetted == len(calls)                           [C13]
+//@   ensures anyInternal ==> result != nil && dyn(result) == type(*errors.TaskInternalError)                [C13]
+// C12: --summary prints and returns: no task is started
+//@   site (*Executor).RunTask#0 requires !e.Summary                                                         [C12]
+//@   site (*Group).Go#0 requires !e.Summary                                                                 [C12]
+//@   site (*Executor).watchTasks#0 requires !e.Summary                                                      [C12]
+
 // ---- C07: concurrency slots -----------------------------------------------------------------------------
 // tok: number of concurrency slots held by the current goroutine (thread-local ghost, 0 or 1).
 // semLimited(): whether the executor was set up with a semaphore (--concurrency N > 0); fixed after Setup.
